@@ -89,7 +89,7 @@ Definition sx_of_err (e : err) : sexp :=
   T (match e with
      | KeyError => "KeyError" | ValueError => "ValueError" | TypeError => "TypeError" | IndexError => "IndexError"
      | LookupError => "LookupError" | AttributeError => "AttributeError" | AssertionError => "AssertionError"
-     | OutOfFuel => "OutOfFuel" | NoFilesFound => "NoFilesFound"
+     | OutOfFuel => "OutOfFuel" | NoFilesFound => "NoFilesFound" | OracleMiss => "OracleMiss" | OtherError => "OtherError"
      end).
 
 Definition sx_of_res {X} (f : X -> sexp) (r : res X) : sexp :=
